@@ -5,6 +5,7 @@ against the draft encoder. Core Lean only.
 import TLX.OutBytes
 import TLX.Lemmas.OnesComplement
 import TLX.Lemmas.Container
+import TLX.Spec.FrameParse
 namespace TLX.Lemmas.OutBytes
 open TLX TLX.OutBytes TLX.Checksum TLX.Spec.Rfc1071 TLX.Lemmas.OnesComplement
 
@@ -492,5 +493,133 @@ theorem l4_valid (f : Frame) (hwf : f.WF) (hfit : Fits f) :
       simp only
       rw [← hck, ← hst]
       simp
+
+/-! ### the independent frame parser on the serialised layers -/
+section
+open TLX.Spec.FrameParse
+
+theorem parseTcp_header (sp dp fl s a ck : Nat) (pay : Bytes) (hsp : sp < 65536) (hdp : dp < 65536)
+    (hs : s < 4294967296) (ha : a < 4294967296) :
+    parseTcp (tcpHeader sp dp fl s a ck ++ pay) =
+      some ⟨sp, dp, .tcp s a 5 (fl % 512 / 256) (fl % 256) 8192 0 [], pay⟩ := by
+  unfold parseTcp
+  have hlen : ¬ (tcpHeader sp dp fl s a ck ++ pay).length < 20 := by
+    simp only [List.length_append, tcpHeader_length]; omega
+  rw [if_neg hlen]
+  have hb : fl % 512 / 256 < 2 := by omega
+  unfold tcpHeader
+  generalize fl % 512 / 256 = hi at *
+  have h5 : (80 + hi) % 256 / 16 = 5 := by omega
+  simp [Bytes.ofNatBE, u8, u16, u32, Bytes.slice, h5]
+  omega
+
+theorem parseUdp_header (sp dp ck : Nat) (pay : Bytes) (hsp : sp < 65536) (hdp : dp < 65536)
+    (hl : 8 + pay.length < 65536) :
+    parseUdp (udpHeader sp dp (8 + pay.length) ck ++ pay) = some ⟨sp, dp, .udp, pay⟩ := by
+  unfold parseUdp
+  have hlen : ¬ (udpHeader sp dp (8 + pay.length) ck ++ pay).length < 8 := by
+    simp only [List.length_append, udpHeader_length]; omega
+  rw [if_neg hlen]
+  simp [udpHeader, Bytes.ofNatBE, u8, u16]
+  omega
+
+theorem len4 (b : Bytes) (h : b.length = 4) : ∃ a0 a1 a2 a3, b = [a0, a1, a2, a3] := by
+  match b, h with
+  | [a0, a1, a2, a3], _ => exact ⟨a0, a1, a2, a3, rfl⟩
+
+theorem len6 (b : Bytes) (h : b.length = 6) : ∃ a0 a1 a2 a3 a4 a5, b = [a0, a1, a2, a3, a4, a5] := by
+  match b, h with
+  | [a0, a1, a2, a3, a4, a5], _ => exact ⟨a0, a1, a2, a3, a4, a5, rfl⟩
+
+theorem len16 (b : Bytes) (h : b.length = 16) :
+    ∃ a0 a1 a2 a3 a4 a5 a6 a7 a8 a9 a10 a11 a12 a13 a14 a15,
+      b = [a0, a1, a2, a3, a4, a5, a6, a7, a8, a9, a10, a11, a12, a13, a14, a15] := by
+  match b, h with
+  | [a0, a1, a2, a3, a4, a5, a6, a7, a8, a9, a10, a11, a12, a13, a14, a15], _ =>
+    exact ⟨a0, a1, a2, a3, a4, a5, a6, a7, a8, a9, a10, a11, a12, a13, a14, a15, rfl⟩
+
+theorem parseIpv4_header (src dst : Bytes) (proto ck : Nat) (seg : Bytes) (hs : src.length = 4) (hd : dst.length = 4)
+    (hp : proto < 256) (hl : 20 + seg.length < 65536) :
+    parseIpv4 (ipv4Header src dst proto (20 + seg.length) ck ++ seg) = some ⟨false, src, dst, 64, proto, seg⟩ := by
+  obtain ⟨s0, s1, s2, s3, rfl⟩ := len4 src hs
+  obtain ⟨d0, d1, d2, d3, rfl⟩ := len4 dst hd
+  unfold parseIpv4
+  simp [ipv4Header, Bytes.ofNatBE, u8, u16, Bytes.slice]
+  omega
+
+theorem parseIpv6_header (src dst : Bytes) (nh : Nat) (seg : Bytes) (hs : src.length = 16) (hd : dst.length = 16)
+    (hp : nh < 256) (hl : seg.length < 65536) :
+    parseIpv6 (ipv6Header src dst nh seg.length ++ seg) = some ⟨true, src, dst, 64, nh, seg⟩ := by
+  obtain ⟨s0, s1, s2, s3, s4, s5, s6, s7, s8, s9, s10, s11, s12, s13, s14, s15, rfl⟩ := len16 src hs
+  obtain ⟨d0, d1, d2, d3, d4, d5, d6, d7, d8, d9, d10, d11, d12, d13, d14, d15, rfl⟩ := len16 dst hd
+  unfold parseIpv6
+  simp [ipv6Header, Bytes.ofNatBE, u8, u16, Bytes.slice]
+  omega
+
+/-- what a receiver must read out of the frame serialised for `f` -/
+def expected (f : Frame) : Parsed :=
+  ⟨f.dstMac, f.srcMac, f.ipv6, f.src.ip, f.dst.ip, 64, f.src.port, f.dst.port,
+    (match f.l4 with
+     | .tcp fl s a => .tcp s a 5 (fl % 512 / 256) (fl % 256) 8192 0 []
+     | .udp => .udp),
+    segBytes f, f.payload⟩
+
+theorem parse_ether (dm sm : Bytes) (t0 t1 : UInt8) (ip : Bytes) (hd : dm.length = 6) (hs : sm.length = 6) :
+    let fr := dm ++ sm ++ [t0, t1] ++ ip
+    ¬ fr.length < 14 ∧ u16 fr 12 = t0.toNat * 256 + t1.toNat ∧ fr.drop 14 = ip ∧ fr.take 6 = dm ∧ fr.slice 6 12 = sm := by
+  obtain ⟨a0, a1, a2, a3, a4, a5, rfl⟩ := len6 dm hd
+  obtain ⟨b0, b1, b2, b3, b4, b5, rfl⟩ := len6 sm hs
+  simp [u16, u8, Bytes.slice]
+
+theorem proto_lt (l : OutBytes.L4) : l.proto < 256 := by cases l <;> simp [OutBytes.L4.proto]
+
+theorem parse_frameBytes (f : Frame) (hwf : f.WF) (hfit : Fits f) : parse (frameBytes f) = some (expected f) := by
+  obtain ⟨hsp, hdp, hff, hlen⟩ := hfit
+  have hsl := segBytes_length f
+  -- the transport layer
+  have hl4 : (if f.l4.proto = 6 then parseTcp (segBytes f) else if f.l4.proto = 17 then parseUdp (segBytes f) else none)
+      = some ⟨f.src.port, f.dst.port, (expected f).l4, f.payload⟩ := by
+    unfold segBytes expected l4Len at *
+    cases hl : f.l4 with
+    | tcp fl s a =>
+      rw [hl] at hff hsl
+      simp only [OutBytes.L4.fieldsFit, Bool.and_eq_true, decide_eq_true_eq] at hff
+      simp only [OutBytes.L4.proto, if_true]
+      exact parseTcp_header _ _ _ _ _ _ _ hsp hdp hff.1 hff.2
+    | udp =>
+      rw [hl] at hsl hlen
+      simp only [OutBytes.L4.proto, if_true, show ¬ (17 = 6) by decide, if_false]
+      have : 8 + f.payload.length < 65536 := by
+        simp only at hlen; split at hlen <;> omega
+      exact parseUdp_header _ _ _ _ hsp hdp this
+  unfold parse frameBytes
+  cases hv : f.ipv6 with
+  | false =>
+    have hs := hwf.src; have hd := hwf.dst
+    rw [hv] at hs hd hlen
+    simp only [Bool.false_eq_true, if_false] at hs hd hlen ⊢
+    obtain ⟨h1, h2, h3, h4, h5⟩ := parse_ether f.dstMac f.srcMac 0x08 0x00 (ipBytes f) hwf.dstMac hwf.srcMac
+    rw [if_neg h1, h2, h3, h4, h5]
+    have hip : parseIpv4 (ipBytes f) = some ⟨false, f.src.ip, f.dst.ip, 64, f.l4.proto, segBytes f⟩ := by
+      unfold ipBytes; rw [hv]
+      simp only [Bool.false_eq_true, if_false]
+      exact parseIpv4_header _ _ _ _ _ hs hd (proto_lt _) (by omega)
+    simp only [show (0x08 : UInt8).toNat * 256 + (0x00 : UInt8).toNat = 0x0800 from rfl, if_true, hip, hl4]
+    simp [expected, hv]
+  | true =>
+    have hs := hwf.src; have hd := hwf.dst
+    rw [hv] at hs hd hlen
+    simp only [if_true] at hs hd hlen ⊢
+    obtain ⟨h1, h2, h3, h4, h5⟩ := parse_ether f.dstMac f.srcMac 0x86 0xDD (ipBytes f) hwf.dstMac hwf.srcMac
+    rw [if_neg h1, h2, h3, h4, h5]
+    have hip : parseIpv6 (ipBytes f) = some ⟨true, f.src.ip, f.dst.ip, 64, f.l4.proto, segBytes f⟩ := by
+      unfold ipBytes; rw [hv]
+      simp only [if_true]
+      exact parseIpv6_header _ _ _ _ hs hd (proto_lt _) (by omega)
+    simp only [show (0x86 : UInt8).toNat * 256 + (0xDD : UInt8).toNat = 0x86DD from rfl,
+      show ¬ (0x86DD = 0x0800) by decide, if_false, if_true, hip, hl4]
+    simp [expected, hv]
+
+end
 
 end TLX.Lemmas.OutBytes
